@@ -1868,6 +1868,66 @@ example : (runSched (HT 2) 0 exRoot [.plain ⟨1, 0⟩, .plain ⟨5, 1⟩, .comp
 example : (handleEvent (HT 2) 0 (runSched (HT 2) 0 exRoot [.plain ⟨1, 0⟩, .plain ⟨5, 1⟩, .completed ⟨1, 0, 1, 0⟩ 3])
     (.plain ⟨1, 3⟩)).2 = [(⟨1, 1, 2, 3⟩, .no)] := by decide
 
+/-! #### audit round 6 (cross-audit by b-c03): further non-vacuity witnesses -/
+
+-- scan_pause_then_resume / no_handle_while_paused: the accepted trace really contains `pause c` directly followed by
+-- `resume c 7` (so the hypothesis `scan p (pre ++ .pause c :: e :: post) = some q` is inhabited by a reachable log)
+example : (runSched exH 0 (Layer.init ⟨0, 0⟩) exSched).log =
+    [.handle (.plain ⟨1, 0⟩), .emit exCmd .owned, .pause exCmd, .resume exCmd 7, .emit ⟨4, 1, 2, 7⟩ .no,
+     .handle (.plain ⟨5, 1⟩), .handle (.completed ⟨9, 9, 9, 9⟩ 3)] := rfl
+example : scan none (runSched exH 0 (Layer.init ⟨0, 0⟩) exSched).log = some none ∧
+    pausedOn (runSched exH 0 (Layer.init ⟨0, 0⟩) exSched).log = [exCmd] := by decide
+-- ... and `scan` is not the constant acceptor: a trace that handles an event while paused is rejected
+example : scan (Ev := Ev) (Reply := Reply) none [.pause exCmd, .handle (.plain ⟨5, 1⟩), .resume exCmd 7] = none := by decide
+example : scan (Ev := Ev) (Reply := Reply) none [.pause exCmd, .resume ⟨9, 9, 9, 9⟩ 7] = none := by decide
+
+-- handled_eq_arrivals_verbatim: its hypothesis (no resume so far) holds on a run that is paused with a non-empty queue
+example : resumed (runSched exH 0 (Layer.init ⟨0, 0⟩) (exSched.take 3)).log = [] ∧
+    handled (runSched exH 0 (Layer.init ⟨0, 0⟩) (exSched.take 3)).log ++ (runSched exH 0 (Layer.init ⟨0, 0⟩) (exSched.take 3)).queue
+      = exSched.take 3 := by decide
+
+-- interleaving_irrelevant: both hypotheses hold for two DIFFERENT schedules (completion before / after the second event)
+example :
+    handled (runSched exH 0 (Layer.init ⟨0, 0⟩) [.plain ⟨1, 0⟩, .plain ⟨5, 1⟩, .completed exCmd 7]).log ++
+        (runSched exH 0 (Layer.init ⟨0, 0⟩) [.plain ⟨1, 0⟩, .plain ⟨5, 1⟩, .completed exCmd 7]).queue =
+    handled (runSched exH 0 (Layer.init ⟨0, 0⟩) [.plain ⟨1, 0⟩, .completed exCmd 7, .plain ⟨5, 1⟩]).log ++
+        (runSched exH 0 (Layer.init ⟨0, 0⟩) [.plain ⟨1, 0⟩, .completed exCmd 7, .plain ⟨5, 1⟩]).queue ∧
+    repliesOf (resumed (runSched exH 0 (Layer.init ⟨0, 0⟩) [.plain ⟨1, 0⟩, .plain ⟨5, 1⟩, .completed exCmd 7]).log) =
+    repliesOf (resumed (runSched exH 0 (Layer.init ⟨0, 0⟩) [.plain ⟨1, 0⟩, .completed exCmd 7, .plain ⟨5, 1⟩]).log) := by decide
+
+-- "exactly its own completion": the completion of an EARLIER command of the same layer (stale) does not resume the
+-- layer now waiting on its next command; it is queued behind
+example : ((runSched exH 0 (Layer.init ⟨0, 0⟩)
+      [.plain ⟨1, 0⟩, .completed exCmd 7, .plain ⟨1, 2⟩, .completed exCmd 9]).paused.map (·.1)) = some ⟨4, 2, 1, 0⟩ ∧
+    (runSched exH 0 (Layer.init ⟨0, 0⟩)
+      [.plain ⟨1, 0⟩, .completed exCmd 7, .plain ⟨1, 2⟩, .completed exCmd 9]).queue = [.completed exCmd 9] ∧
+    resumed (runSched exH 0 (Layer.init ⟨0, 0⟩)
+      [.plain ⟨1, 0⟩, .completed exCmd 7, .plain ⟨1, 2⟩, .completed exCmd 9]).log = [.completed exCmd 7] := by decide
+
+-- child_block_does_not_block_parent: with the child paused AND queueing, the parent has handled both arrivals at once
+example : handled (runSched exParent 0 exP0 [.plain ⟨1, 0⟩, .plain ⟨1, 1⟩]).log = [.plain ⟨1, 0⟩, .plain ⟨1, 1⟩] ∧
+    (runSched exParent 0 exP0 [.plain ⟨1, 0⟩, .plain ⟨1, 1⟩]).queue = [] ∧
+    ((runSched exParent 0 exP0 [.plain ⟨1, 0⟩, .plain ⟨1, 1⟩]).st.2.map (fun ch => ch.queue)) = [[.plain ⟨1, 1⟩]] := by decide
+
+-- NextLayer: while its hook is pending the next event waits in NextLayer's own queue and the candidate child is untouched
+example : (nlRunSched exNL exH 0 (nlInit (Layer.init ⟨0, 0⟩)) (exNLSched.take 2)).queue = [.plain ⟨5, 1⟩] ∧
+    (nlRunSched exNL exH 0 (nlInit (Layer.init ⟨0, 0⟩)) (exNLSched.take 2)).st.child.arrived = [] ∧
+    (nlRunSched exNL exH 0 (nlInit (Layer.init ⟨0, 0⟩)) (exNLSched.take 2)).st.events = [.plain ⟨1, 0⟩] := by decide
+-- a STALE hook completion (hook 0 completed a second time) is not consumed by NextLayer: it is buffered like any
+-- event and reaches the chosen layer at its place in arrival order
+example : (nlRunSched exNL exH 0 (nlInit (Layer.init ⟨0, 0⟩))
+      [.plain ⟨1, 0⟩, .completed ⟨0, 0, 0, 0⟩ 0, .completed ⟨0, 0, 0, 0⟩ 1, .plain ⟨1, 3⟩, .completed ⟨0, 1, 0, 0⟩ 1]).st.child.arrived
+    = [.plain ⟨1, 0⟩, .completed ⟨0, 0, 0, 0⟩ 1, .plain ⟨1, 3⟩] ∧
+    resumed (nlRunSched exNL exH 0 (nlInit (Layer.init ⟨0, 0⟩))
+      [.plain ⟨1, 0⟩, .completed ⟨0, 0, 0, 0⟩ 0, .completed ⟨0, 0, 0, 0⟩ 1, .plain ⟨1, 3⟩, .completed ⟨0, 1, 0, 0⟩ 1]).log
+    = [.completed ⟨0, 0, 0, 0⟩ 0, .completed ⟨0, 1, 0, 0⟩ 1] := by decide
+
+-- tree_layers_pause_only_on_own on the example tree (distinct indices 1,2,3,4): after the root's completion the root is
+-- idle again while both of its children are paused on their own commands
+example : (runSched (HT 2) 0 exRoot [.plain ⟨1, 0⟩, .plain ⟨5, 1⟩, .completed ⟨1, 0, 1, 0⟩ 3]).paused.isNone = true ∧
+    ((runSched (HT 2) 0 exRoot [.plain ⟨1, 0⟩, .plain ⟨5, 1⟩, .completed ⟨1, 0, 1, 0⟩ 3]).st.2.map
+      (fun ch => ch.paused.map (·.1))) = [some ⟨2, 0, 1, 0⟩, some ⟨3, 0, 1, 0⟩] := by decide
+
 end prog
 
 end MitmVerif.Props.C04
